@@ -73,6 +73,10 @@ pub enum TryKind {
     Send,
     Recv,
     RecvView,
+    /// `Stream::poll` inside a task (C15: never waits inside the call)
+    Poll,
+    /// `Sink::start_send` inside a task
+    StartSend,
 }
 
 #[derive(Clone, PartialEq, Debug)]
@@ -147,6 +151,9 @@ pub struct Scenario {
     /// probe-anchored stall: (probe id, fire on n-th hit, length)
     pub trap: Option<(u32, u32, u32)>,
     pub tags: Vec<String>,
+    /// sequential engine: when present, main runs this call list against the reference
+    /// model instead of starting threads
+    pub seq: Option<Vec<crate::seq::SeqCall>>,
 }
 
 impl Scenario {
@@ -167,6 +174,7 @@ impl Scenario {
             quarantine: false,
             trap: None,
             tags: Vec::new(),
+            seq: None,
         }
     }
     pub fn digest(&self) -> u64 {
@@ -242,6 +250,8 @@ impl Op {
                     TryKind::Send => "send",
                     TryKind::Recv => "recv",
                     TryKind::RecvView => "recv_view",
+                    TryKind::Poll => "poll",
+                    TryKind::StartSend => "start_send",
                 }),
             ]),
             Op::Yield(k) => a(vec![J::str("yield"), J::UInt(*k as u64)]),
@@ -298,6 +308,8 @@ impl Op {
                     Some("send") => TryKind::Send,
                     Some("recv") => TryKind::Recv,
                     Some("recv_view") => TryKind::RecvView,
+                    Some("poll") => TryKind::Poll,
+                    Some("start_send") => TryKind::StartSend,
                     _ => return Err("try kind".into()),
                 },
             },
@@ -409,6 +421,13 @@ impl Scenario {
                 },
             )
             .set("tags", J::Arr(self.tags.iter().map(|t| J::str(t)).collect()))
+            .set(
+                "seq",
+                match &self.seq {
+                    None => J::Null,
+                    Some(c) => J::Arr(c.iter().map(|x| x.to_json()).collect()),
+                },
+            )
     }
 
     pub fn from_json(j: &J) -> Result<Scenario, String> {
@@ -473,6 +492,10 @@ impl Scenario {
                 .and_then(|x| x.as_arr())
                 .map(|a| a.iter().filter_map(|x| x.as_str().map(|s| s.to_string())).collect())
                 .unwrap_or_default(),
+            seq: match j.get("seq") {
+                Some(J::Arr(a)) => Some(a.iter().map(crate::seq::SeqCall::from_json).collect::<Result<Vec<_>, _>>()?),
+                _ => None,
+            },
         })
     }
 }
